@@ -70,6 +70,7 @@ func accepts(want []string, got string) bool {
 // S is one sequential differential run: a real database next to the model.
 type S struct {
 	c       *core.Ctx
+	r       *gen.Rng // the stream driving this run (c.R unless the run is replicated)
 	h       *Handle
 	m       *model.DB
 	schemas map[string]*gen.Schema
@@ -80,11 +81,28 @@ type S struct {
 	plan    string // plan kind of the last read (coverage only)
 	lastSt  *mon.OpStats
 	opCells bool // record <operation|outcome|backend> coverage cells
+	recording  bool
+	transcript []string
+}
+
+// tr appends a line to the cross-backend transcript.
+func (s *S) tr(format string, args ...any) {
+	if s.recording {
+		s.transcript = append(s.transcript, fmt.Sprintf(format, args...))
+	}
+}
+
+func idsOf(ds []map[string]any) []string {
+	ids := make([]string, len(ds))
+	for i, d := range ds {
+		ids[i], _ = d["_id"].(string)
+	}
+	return ids
 }
 
 func NewS(c *core.Ctx, h *Handle) *S {
 	c.Backend = h.Backend
-	return &S{c: c, h: h, m: model.NewDB(), schemas: map[string]*gen.Schema{}, ever: map[string]map[string]bool{}, genIDs: map[string]bool{}}
+	return &S{c: c, r: c.R, h: h, m: model.NewDB(), schemas: map[string]*gen.Schema{}, ever: map[string]map[string]bool{}, genIDs: map[string]bool{}}
 }
 
 func (s *S) viol(sig, format string, args ...any) {
@@ -165,6 +183,7 @@ func (s *S) expect(name string, want []string, got string, err error) bool {
 		return false
 	}
 	s.c.Log("%s -> %s", name, got)
+	s.tr("%s -> %s", name, got)
 	if s.opCells {
 		s.c.Cell("op|%s|%s|%s", opName(name), got, s.h.Backend)
 	}
@@ -220,6 +239,7 @@ func (s *S) ListCollections() {
 	var names []string
 	got, err := s.run("ListCollections()", true, func() (e error) { names, e = s.h.DB.ListCollections(); return })
 	if s.expect("ListCollections()", []string{OK}, got, err) {
+		s.tr("   names=%q", names)
 		sort.Strings(names)
 		want := s.m.Names()
 		if strings.Join(names, "\x01") != strings.Join(want, "\x01") {
@@ -282,6 +302,7 @@ func (s *S) ListIndexes(coll string) {
 		return
 	}
 	if s.expect(n, []string{OK}, got, err) {
+		s.tr("   indexes=%v", infos)
 		fs := []string{}
 		for _, i := range infos {
 			fs = append(fs, i.Field)
@@ -325,6 +346,7 @@ func (s *S) FindAll(q *model.Query) []map[string]any {
 		return nil
 	}
 	res := model.FromDocs(docs)
+	s.tr("   ids=%v", idsOf(res))
 	problem, inc := model.CheckResult(q, mc.Docs, res)
 	if inc {
 		s.c.Inconclusive("unspecified_comparison")
@@ -405,6 +427,7 @@ func (s *S) Count(q *model.Query) {
 	if !s.expect(n, []string{OK}, got, err) {
 		return
 	}
+	s.tr("   count=%d", cnt)
 	match, dc := q.Matching(mc.Docs)
 	if len(dc) > 0 {
 		s.c.Inconclusive("unspecified_comparison")
